@@ -409,7 +409,84 @@ func c12FailedBackupCase(c *explore.Ctx, base *explore.Base, n int) (bool, strin
 	return false, bad
 }
 
+// c12AfterShortWrite: a Backup taken after a write that failed half-way (a sector-granular short write left a part of a
+// record in the segment; the application retried and carried on) must open to exactly the contents at the call.
+func c12AfterShortWrite(c *explore.Ctx) {
+	for _, bn := range []string{"E", "CH"} {
+		if !c.Mine() {
+			continue
+		}
+		base, err := explore.GetBase(bn, cfgByName("BIGC"), 0)
+		if err != nil {
+			c.HarnessError("%v", err)
+		}
+		explore.PinSeed(0)
+		for _, o := range []explore.Op{{Kind: explore.Put, Key: base.Alpha[0]}, {Kind: explore.Delete, Key: base.Alpha[0]}} {
+			for n := 1; n < 50; n++ {
+				done, bad := c12AfterShortWriteCase(c, base, o, n)
+				if bad != "" {
+					c.Violation(explore.Violation{Key: fmt.Sprintf("backup-after-short-write base=%s op=%s fault@%d", bn, o, n),
+						What: fmt.Sprintf("base %s/BIGC, segment padded to 8 bytes before a sector boundary, %s with a short write at its mutating file-system call #%d, the call retried, one more Put, Backup: %s", bn, o, n, bad), Size: n,
+						Replay: map[string]interface{}{"kind": "shortwrite12", "base": bn, "cfg": "BIGC", "op": opsJSON([]explore.Op{o}), "fault_at": n, "observed": bad}})
+					return
+				}
+				if done {
+					break
+				}
+			}
+		}
+	}
+}
+
+func c12AfterShortWriteCase(c *explore.Ctx, base *explore.Base, o explore.Op, n int) (bool, string) {
+	s := base.NewSess()
+	s.FS.FailPartial = true
+	if err := s.OpenDB(); err != nil {
+		return true, "Open: " + err.Error()
+	}
+	defer func() { _ = s.ProtectedClose() }()
+	if msg := padSegment(c, s); msg != "" {
+		return true, msg
+	}
+	before := s.FS.Mutations()
+	s.FS.FailAt = before + n
+	err := s.Apply(o)
+	s.FS.FailAt = 0
+	if s.FS.Mutations() < before+n {
+		return true, ""
+	}
+	c.Add("executions", 1)
+	c.Add("backup_after_short_write_probes", 1)
+	c.Add("transitions", 4)
+	if err != nil {
+		if err := s.Apply(o); err != nil {
+			return false, "the retried call failed as well: " + err.Error()
+		}
+	}
+	if err := s.Apply(explore.Op{Kind: explore.Put, Key: base.Alpha[1]}); err != nil {
+		return false, "Put after the retry: " + err.Error()
+	}
+	if err := s.Apply(explore.Op{Kind: explore.Backup}); err != nil {
+		return false, "Backup returned error: " + err.Error()
+	}
+	if s.Panicked != "" {
+		return false, s.Panicked
+	}
+	rec := explore.RecoverImage(s.FS.SubImage(s.LastBackup, explore.DBPath), base.Cfg, base.Keys, base.Probe, base.Seed, explore.RecoverOpts{})
+	switch {
+	case rec.OpenErr != "":
+		return false, "the backup does not open: " + rec.OpenErr
+	case rec.Internal != "" || !s.Model.Equal(rec.Contents):
+		return false, "the backup does not hold the contents the database had when Backup was called: " + rec.Internal + " " + s.Model.Diff(rec.Contents, s.KeyName)
+	}
+	return false, ""
+}
+
 func runC12(c *explore.Ctx) {
+	c12AfterShortWrite(c)
+	if c.Expired() || c.NViolations() > 0 {
+		return
+	}
 	c12FailedBackup(c)
 	if c.Expired() || c.NViolations() > 0 {
 		return
